@@ -61,7 +61,7 @@ IDispatch(X, e) ==
       [] e.op = "len"        -> ILen(X)
       [] e.op = "clear"      -> IClear(X)
       [] e.op = "view"       -> IView(X, e.a.what, e.a.rev = 1)
-      [] e.op = "eq"         -> IEq(X, e.a.other, e.a.ordered = 1)
+      [] e.op = "eq"         -> IEq(X, e.a.other, e.a.ordered >= 1)     \* 1: an OrderedDict, 2: another Index
       [] e.op \in {"reopen", "pickle"} -> IRes(X, INone)
       [] OTHER               -> IRes(X, IR("unknown-op", <<>>))
 =============================================================================
